@@ -102,6 +102,11 @@ func Fetch(
 			return nil
 		}
 
+		// Records without content (i.e. files that have been created but never written to) did not go through the pipeline
+		if hdr.Size <= 0 {
+			return dstFile.Close()
+		}
+
 		decryptor, err := encryption.Decrypt(tr, pipes.Encryption, crypto.Identity)
 		if err != nil {
 			return err
